@@ -1,6 +1,7 @@
 package exec
 
 import (
+	"encoding/json"
 	"strconv"
 	"fmt"
 	"go/types"
@@ -947,6 +948,29 @@ func (r *Runner) Explore() *Summary {
 		enc = smt.EncInt
 	}
 	seenViol := map[string]bool{}
+	// once a violation that is not a listed known finding has been found the verdict is settled:
+	// exploration goes on for a grace period (other labels may still turn up) and then stops
+	var stopAt time.Time
+	grace, _ := strconv.ParseFloat(os.Getenv("GOSMT_STOP_GRACE"), 64)
+	var knownRe []*regexp.Regexp
+	if kl := os.Getenv("GOSMT_KNOWN_LABELS"); kl != "" {
+		var pats []string
+		if json.Unmarshal([]byte(kl), &pats) == nil {
+			for _, p := range pats {
+				if re, err := regexp.Compile(p); err == nil {
+					knownRe = append(knownRe, re)
+				}
+			}
+		}
+	}
+	isKnown := func(label string) bool {
+		for _, re := range knownRe {
+			if re.MatchString(label) {
+				return true
+			}
+		}
+		return false
+	}
 	var wg sync.WaitGroup
 	nw := cfg.Workers
 	for w := 0; w < nw; w++ {
@@ -973,6 +997,14 @@ func (r *Runner) Explore() *Summary {
 				work = work[:len(work)-1]
 				active++
 				paths++
+				if !stopAt.IsZero() && time.Now().After(stopAt) {
+					done = true
+					paths--
+					active--
+					mu.Unlock()
+					cond.Broadcast()
+					return
+				}
 				if paths > cfg.MaxPaths || (cfg.TimeBudgetS > 0 && time.Since(t0).Seconds() > cfg.TimeBudgetS) {
 					done = true
 					sum.Inconclusive = append(sum.Inconclusive, fmt.Sprintf("exploration budget exhausted after %d paths (%.0fs); %d prefixes unexplored", paths-1, time.Since(t0).Seconds(), len(work)+1))
@@ -1017,6 +1049,9 @@ func (r *Runner) Explore() *Summary {
 						}
 					}
 					seenViol[key] = true
+					if grace > 0 && stopAt.IsZero() && !cfg.ExpectViolation && !isKnown(v.Label) {
+						stopAt = time.Now().Add(time.Duration(grace * float64(time.Second)))
+					}
 				}
 				for _, s := range res.Inconclusive {
 					if len(sum.Inconclusive) < 50 {
